@@ -114,7 +114,10 @@ def pytask_unconfigure(session: Session) -> None:
     """Stop capturing and restore the standard streams and file descriptors."""
     capman = session.config["pm"].get_plugin("capturemanager")
     if capman is not None:
-        capman.stop_capturing()
+        # A task may have closed the capture buffers. Then, there is nothing left to
+        # pass on, but the streams and file descriptors are handed back regardless.
+        with contextlib.suppress(ValueError):
+            capman.stop_capturing()
 
 
 # Copied from pytest with slightly modified docstrings.
@@ -756,9 +759,11 @@ class CaptureManager:
 
     def stop_capturing(self) -> None:
         if self._capturing is not None:
-            self._capturing.pop_outerr_to_orig()
-            self._capturing.stop_capturing()
-            self._capturing = None
+            try:
+                self._capturing.pop_outerr_to_orig()
+            finally:
+                self._capturing.stop_capturing()
+                self._capturing = None
 
     def resume(self) -> None:
         # During teardown of the python process, and on rare occasions, capture
